@@ -637,9 +637,17 @@ class unyt_array(np.ndarray):
             if dtype is None:
                 dtype = input_array.dtype
             obj = input_array.view(type=cls, dtype=dtype)
+            if registry is not None and input_units.registry is not registry:
+                # attach the unit to the registry without rebinding the
+                # caller's Unit object (possibly one exported by unyt)
+                input_units = Unit(
+                    input_units.expr,
+                    base_value=input_units.base_value,
+                    base_offset=input_units.base_offset,
+                    dimensions=input_units.dimensions,
+                    registry=registry,
+                )
             obj.units = input_units
-            if registry is not None:
-                obj.units.registry = registry
             obj.name = name
             return obj
         if isinstance(input_array, unyt_array):
